@@ -6,6 +6,7 @@ use std::collections::{BTreeMap, BTreeSet};
 use std::io::Write;
 use std::process::{Command, Stdio};
 
+pub mod c02;
 pub mod c03;
 pub mod c04;
 pub mod c06;
@@ -351,6 +352,7 @@ pub fn main() {
             }
             r
         }
+        "C02" | "C16" => c02::run(&opts, &opts.property.clone()),
         "C04" => c04::run(&opts),
         "C06" => c06::run(&opts),
         "C09" => sync::run(&opts, "C09"),
